@@ -263,7 +263,7 @@ func multiPart(s stack.Spec) bool {
 }
 
 func checkC01(t *rapid.T, sub string, bases []string, maxDepth int, noKinds map[string]bool, maxSends int, settle time.Duration) {
-	spec := genSpec(t, specOpts{maxDepth: maxDepth, bases: bases, noKinds: noKinds, smallMTUs: true, honestFrag: false, smallQueues: true, transform: true})
+	spec := genSpec(t, specOpts{maxDepth: maxDepth, bases: bases, noKinds: noKinds, smallMTUs: true, honestFrag: false, smallQueues: true, transform: true, dupBase: true})
 	if bases[0] == "mem" && rapid.IntRange(0, 5).Draw(t, "oversizeFragTop") == 0 {
 		// a fragmenting layer on top whose configured MTU needs more parts than its 8-bit fields can count:
 		// MTU() must be honest about it and Tell must refuse what lies between MTU() and the configured value
